@@ -535,10 +535,18 @@ fn main() {
             }
         }
     });
-    let stdin = std::io::stdin();
+    // the cases are read from a duplicate of standard input and descriptor number 0 is released, so that the
+    // descriptors created for the cases (memfds handed over as SCM_RIGHTS, sockets) can be numbered 0 as well:
+    // 0 is a valid descriptor number
+    let input = unsafe {
+        use std::os::unix::io::FromRawFd;
+        let d = libc::dup(0);
+        libc::close(0);
+        std::fs::File::from_raw_fd(d)
+    };
     let stdout = std::io::stdout();
     let mut w = std::io::BufWriter::new(stdout.lock());
-    for line in stdin.lock().lines() {
+    for line in std::io::BufReader::new(input).lines() {
         let line = line.unwrap();
         if !line.starts_with('(') {
             continue;
